@@ -140,12 +140,15 @@ class CHECK(Check):
 
     def impl(self, case):
         F = families.get(case["fam"])
-        elems = [F["Default"](data="v%d" % v) for v in case["vc"]]
+        import hashlib, json
+        h = int(hashlib.sha1(json.dumps(case, sort_keys=True).encode()).hexdigest(), 16)
+        # a third of the cases use plain base-class components: Block and Section define no usable ==  (it raises
+        # NotImplementedError), and the containers are about identity -- they must never compare their members
+        K = F["Base"] if (h >> 40) % 3 == 0 else F["Default"]
+        elems = [K(data="v%d" % v) for v in case["vc"]]
         ids = {id(e): i for i, e in enumerate(elems)}
         c = F["Data"](elems[0])
         out = []
-        import hashlib, json
-        h = int(hashlib.sha1(json.dumps(case, sort_keys=True).encode()).hexdigest(), 16)
         for j, op in enumerate(case["ops"]):
             # a third of the operations run while an iteration over the container is suspended (`for e in c: c.remove(e)` is
             # ordinary user code); the iterator is exhausted afterwards. Iterating is an observation: it must not change what
